@@ -14,7 +14,8 @@ def declare(spec):
         'closed': BOOL,            # output pipes closed (Process.stop)
         # configuration the worker is started with (C13 / C07) and the psutil handle (C18)
         'working_dir': VAL, 'shell': VAL, 'env': VAL, 'use_fds': BOOL, 'executable': VAL,
-        'pipe_stdout': BOOL, 'pipe_stderr': BOOL, '_sockets': VAL, 'cmd': VAL, '_worker': Ref('PsProc'),
+        'pipe_stdout': BOOL, 'pipe_stderr': BOOL, '_sockets': VAL, 'cmd': STR, '_worker': Ref('PsProc'),
+        'args': VAL, 'uid': VAL, 'gid': VAL, 'rlimits': VAL, 'watcher': Ref('Watcher'),
         'redirected': BOOL, 'stdout': VAL, 'stderr': VAL,
     })
     spec.Class('PsProc', fields={'pid': INT})
@@ -40,7 +41,7 @@ def declare(spec):
         'stdout_stream': VAL, 'stderr_stream': VAL, 'env': VAL, 'working_dir': VAL, 'shell': VAL,
         'uid': VAL, 'gid': VAL, 'rlimits': VAL, 'executable': VAL, 'use_sockets': BOOL,
         'close_child_stdin': VAL, 'close_child_stdout': VAL, 'close_child_stderr': VAL,
-        '_found_wids': List(INT), 'send_hup': VAL, 'prereload_fn': VAL,
+        '_found_wids': List(INT), 'send_hup': VAL, 'prereload_fn': VAL, 'optnames': List(STR),
     })
     spec.Class('PubSocket', fields={'closed': BOOL})
     spec.Class('Arbiter', qual='circus.arbiter:Arbiter', fields={
